@@ -3,9 +3,9 @@ prop(
     quick=[("native", 8), ("miri", 4)],
     thorough=[("native", 16), ("miri", 8)],
     level="exploration",
-    min_evals={"quick": 6_000_000, "thorough": 150_000_000},
+    min_evals={"quick": 10_000_000, "thorough": 240_000_000},
     rule=(
-        "Four workloads, every case judged by oracles written in the harness (proleptic Gregorian calendar by closed form, "
+        "Five workloads, every case judged by oracles written in the harness (proleptic Gregorian calendar by closed form, "
         "cross-checked against a running day counter over all 3 652 059 days; strict RFC 5280 time parser; i64 interval model; "
         "big-integer decimal / minimal DER INTEGER / comparison). "
         "(1) instant -> Time -> encode_varied -> tag must be UTCTime for 1950-2049 else GeneralizedTime, the text must be the strict form naming "
@@ -20,9 +20,20 @@ prop(
         "probed with the whole pool and compared with max/min bounds when non-empty, DER round trip of the windows. (4) Serial: boundary-dense "
         "20-octet values (every length x leading octet class, 2^k, 2^k-1, 10^k +-1) plus random: from_array/from_slice, decimal text against the "
         "oracle, from_str back, serde, DER against der::uint_be and decoding, From<u64/u128>, order of neighbours and random pairs. "
+        "(5) the encoders into sinks that take fewer octets than offered: Time::encode_varied (both forms), encode_utc_time, "
+        "encode_generalized_time, Validity::encode, CrlEntry::encode (serial + time in one element), Serial::encode and Serial's content writer "
+        "(PrimitiveContent::write_encoded) are written through bcder's write_encoded, for 12 boundary seconds (year 1, 999/1000, both pivots, "
+        "9999) and 27 boundary serials (every significant length class, pad octet or not) plus 6000 / 120000 seed-chosen seconds and 3000 / 40000 "
+        "serials, into: a harness sink taking k octets per call for every k = 1..len+1 and seed-chosen varying patterns; a sink with room for r "
+        "octets for every r = 0..len that then answers with an error or with Ok(0) (six ways of taking octets before the edge); a sink that answers "
+        "exactly one call (every call index) with an error and carries on; &mut [u8] and Cursor<&mut [u8]> of every size 0..len+2; "
+        "std::io::BufWriter of capacity 1/4/8/16 over a short-writing sink; sinks answering every 2nd/3rd call with ErrorKind::Interrupted. "
+        "Law: Ok(()) only if exactly the octets that arrive in a Vec have arrived (the Vec output itself is compared with harness-written DER: "
+        "the canonical time form of the year, der::uint_be, their sequences); any Err is accepted and counted by cause. "
         "A case signature is (encoding chosen, era, date class) / (every-second day) for part 1, (tag, mutation class = field and character "
         "class or shape, oracle verdict and reason, library verdict) for part 2, (relation of now to both bounds, window empty?) and trim shape "
-        "for part 3, (significant length, leading-octet class) for part 4; evaluations counts single oracle comparisons."
+        "for part 3, (significant length, leading-octet class) for part 4, (encoder, sink kind, element and header/content region in which the sink refuses or whether a call was taken short, "
+        "Ok/Err reported) for part 5; evaluations counts single oracle comparisons (one per sink run in part 5)."
     ),
     assumptions=[
         "only whole seconds are in scope: Time values with a sub-second part and chrono's leap-second representation are not generated",
@@ -31,15 +42,18 @@ prop(
         "UTCTime produced by encode_utc_time for years outside 1950-2049 is ambiguous by design and not checked",
         "Serial values with the top bit of octet 0 set are not representable (from_array rejects them, recorded); the text of zero may be '' or '0' (observed: empty string)",
         "TLVs are decoded in bcder Mode::Der; BER length variants are not part of the statement",
+        "'encodes' is read as: the octets an encoder delivers do not depend on how the io::Write it is given takes them, and Ok(()) means all of them were delivered; which error is reported when the sink refuses, and an error from a sink that took everything (only slowly, or after ErrorKind::Interrupted), are left open (observed: none)",
+        "sinks are synchronous io::Write implementations of the harness and of std (slice, Cursor, BufWriter); tag and length octets are written by bcder, the content octets by rpki-rs; Mode::Der only",
     ],
     level_text=(
         "Runtime oracles over an enumeration that is complete by day for the whole range 0001-01-01..9999-12-31 (thorough) and by second for "
         "the pivot, leap and range-end days, over the complete single/double substitution neighbourhood of up to 1000 valid time strings, over all "
         "triples/pairs of a boundary-dense instant pool and over boundary-dense and random serial numbers; a Miri stage repeats a subset (Serial::encode_dec "
-        "uses from_utf8_unchecked). Enumeration plus independent reference implementations is the natural level for pure value-level properties."
+        "uses from_utf8_unchecked) and a handful of sink runs. The encoders are additionally run against an enumeration of sink behaviours (every per-call "
+        "quantum, every refusal offset, every failing call, every slice size) for boundary and sampled values. Enumeration plus independent reference implementations is the natural level for pure value-level properties."
     ),
     level_note="Trusts the harness' 60-line calendar and parser (self-tested against external anchors such as 2^31-1 = 2038-01-19T03:14:07Z and against a running day counter); seconds other than the enumerated ones are sampled, not enumerated.",
-    technique="runtime oracles (independent calendar, strict time parser, interval model, big-integer model) over exhaustive-by-day enumeration and mutation neighbourhoods + Miri",
+    technique="runtime oracles (independent calendar, strict time parser, interval model, big-integer model) over exhaustive-by-day enumeration and mutation neighbourhoods; encoders swept over short-writing, refusing, interrupting and fixed-size sinks (fault enumeration per offset / call) + Miri",
     design_ref="DESIGN.md §4 C17",
     exhaustive_scope="thorough tier, native stage: every day of the years 1..9999 at 00:00:00, 12:34:56 and 23:59:59 through encode_varied / take_from (tag choice and instant); everything else is sampled or bounded as described in the rule",
 )
